@@ -246,6 +246,12 @@ def check_tokamak(c):
         return []
     opts = {"psinorm_sol": psinorm_sol, "psinorm_core": 0.9, "psinorm_pf": 0.95, "nx_core": 1, "nx_sol": 1, "nx_inter_sep": 1,
             "ny_inner_divertor": 3, "ny_outer_divertor": 3, "ny_sol": 4}
+    if c.get("edge_as") == "psi_sol":
+        # the same edge given un-normalised (psi_sol overrides psinorm_sol, which is left at its default)
+        del opts["psinorm_sol"]
+        edge = po + psinorm_sol * (xs[0][2] - po)
+        opts["psi_sol"] = edge
+        opts["psi_sol_inner"] = edge
     with quiet_stdio(), warnings.catch_warnings():
         warnings.simplefilter("ignore")
         try:
@@ -297,6 +303,7 @@ def tokamak_strategy():
             "delta": st.sampled_from([0.004, 0.008, 0.012, 0.02, 0.03]),
             "n": st.sampled_from([49, 65]),
             "psinorm_sol_offset": st.floats(-0.04, 0.06).map(lambda x: round(x, 4)),
+            "edge_as": st.sampled_from(["psinorm_sol", "psi_sol"]),
         }
     )
 
@@ -309,7 +316,7 @@ def shard_tokamak(seed, n):
             return ["tokamak/skipped-margin"]
         if "_raised" in c:
             return ["tokamak/raised:" + c.pop("_raised")]
-        return ["tokamak/expect-%s" % ("double" if c.pop("_two", False) else "single")]
+        return ["tokamak/expect-%s/edge-as-%s" % ("double" if c.pop("_two", False) else "single", c.get("edge_as", "psinorm_sol"))]
 
     hyp_search("C19", tokamak_strategy(), check_tokamak, seed=seed, max_examples=n, result=res, label=lab, shrink=False, case_timeout=240.0)
     return res
